@@ -1183,6 +1183,7 @@ func runC16(e *Env) error {
 
 	lap("large containers")
 	// ---- (c) end to end ----
+	c16ConcurrentDecode(e)
 	for i, s := range c16HandSites() {
 		c16EndToEnd(e, s, astConst, e.N(4, 40), fmt.Sprintf("hand%d:", i))
 		if i == 1 {
@@ -1225,4 +1226,88 @@ func runC16(e *Env) error {
 	}
 	lap("end to end")
 	return nil
+}
+
+// c16ConcurrentDecode: several goroutines serialise, deserialise and load compiled templates of different shapes at the
+// same time (a deployment that warms several engines at once): every call returns its own template's fields.
+func c16ConcurrentDecode(e *Env) {
+	r := e.Rep
+	type blob struct {
+		name, src string
+		data      []byte
+	}
+	var blobs []blob
+	for i := 0; i < 12; i++ {
+		name := strings.Repeat("n", 1+i*7) + fmt.Sprint(i)
+		src := fmt.Sprintf("T%d {{ v }} ", i) + strings.Repeat("x", i*i*37)
+		eng := twig.New()
+		if err := eng.RegisterString(name, src); err != nil {
+			return
+		}
+		ct, err := eng.CompileTemplate(name)
+		if err != nil {
+			return
+		}
+		data, err := twig.SerializeCompiledTemplate(ct)
+		if err != nil {
+			return
+		}
+		blobs = append(blobs, blob{name, src, data})
+	}
+	rounds := e.N(6, 60)
+	for round := 0; round < rounds && !r.Full(); round++ {
+		errs := make([]string, 12)
+		c02Barrier(12, func(g int) {
+			defer func() {
+				if p := recover(); p != nil {
+					errs[g] = fmt.Sprintf("panic: %v", p)
+				}
+			}()
+			for k := 0; k < 150; k++ {
+				b := blobs[(g+k)%len(blobs)]
+				ct, err := twig.DeserializeCompiledTemplate(b.data)
+				if err != nil || ct.Name != b.name || ct.Source != b.src {
+					errs[g] = fmt.Sprintf("DeserializeCompiledTemplate of a valid %d-byte blob: name %q (want %q), source length %d (want %d), error %v", len(b.data), truncate(ctName(ct), 30), truncate(b.name, 30), len(ctSource(ct)), len(b.src), err)
+					return
+				}
+				if k%10 == 0 {
+					eng := twig.New()
+					if err := eng.LoadFromCompiledData(b.data); err != nil {
+						errs[g] = "LoadFromCompiledData: " + err.Error()
+						return
+					}
+					if out, err := eng.Render(b.name, map[string]interface{}{"v": g}); err != nil || !strings.HasPrefix(out, fmt.Sprintf("T%d %d ", (g+k)%len(blobs), g)) {
+						errs[g] = fmt.Sprintf("render of the loaded template: %q %v", truncate(out, 30), err)
+						return
+					}
+					if data2, err := twig.SerializeCompiledTemplate(ct); err != nil || len(data2) != len(b.data) {
+						errs[g] = fmt.Sprintf("re-serialising gives %d bytes, want %d (%v)", len(data2), len(b.data), err)
+						return
+					}
+				}
+			}
+		})
+		r.Seen(fmt.Sprintf("concurrent-decode:%d", round), true)
+		r.Hit("concurrent-decode")
+		for g, msg := range errs {
+			if msg != "" {
+				r.Violate(Violation{Key: "concurrent-decode", What: fmt.Sprintf("12 goroutines decoding 12 valid compiled templates at once: goroutine %d: %s", g, msg),
+					Broken: "theorem C16_decode_encode (decoding is a function of the bytes; implementation-only oracle under concurrency)", Replay: map[string]any{"kind": "concurrent-decode", "round": round, "goroutine": g, "error": msg}})
+				return
+			}
+		}
+	}
+}
+
+func ctName(c *twig.CompiledTemplate) string {
+	if c == nil {
+		return "<nil>"
+	}
+	return c.Name
+}
+func ctSource(c *twig.CompiledTemplate) string {
+	if c == nil {
+		return ""
+	}
+	return c.Source
 }
